@@ -841,7 +841,7 @@ def _inner_history(ops, seed):
     env.set_seed(seed)
     ref.set_seed(seed)
     ref_state, ref_obs = None, None
-    legal, illegal = aspace.actions[0], Action.PICK_N_DROP
+    legal, turn, illegal = aspace.actions[0], aspace.actions[1], Action.PICK_N_DROP
     for t, op in enumerate(ops):
         where = f'op {t} ({op}) of {"".join(ops)}'
         try:
@@ -872,12 +872,13 @@ def _inner_history(ops, seed):
                 except RuntimeError:
                     if ref_state is not None:
                         return f'{where}: observation raised RuntimeError after a reset'
-            elif op == 'S':
+            elif op in ('S', 'L'):
+                act = legal if op == 'S' else turn
                 try:
-                    r = env.step(legal)
+                    r = env.step(act)
                     if ref_state is None:
                         return f'{where}: step worked before the first reset'
-                    ref_state, rr, dd = ref.functional_step(ref_state, legal)
+                    ref_state, rr, dd = ref.functional_step(ref_state, act)
                     ref_obs = None
                     if tuple(r) != (rr, dd):
                         return f'{where}: reward / done differ from the functional reference'
@@ -908,8 +909,10 @@ def _gym_history(ops, seed):
     inner, ref = make(), make()
     inner.set_seed(seed)
     ref.set_seed(seed)
-    srep = make_state_representation('default', inner.state_space)
-    orep = make_observation_representation('default', inner.observation_space)
+    names = ['default', 'no-overlap', 'compact']
+    si, oi = seed % 3, (seed // 3) % 3          # the environment is wrapped directly with any of the representations
+    srep = make_state_representation(names[si], inner.state_space)
+    orep = make_observation_representation(names[oi], inner.observation_space)
     genv = GymEnvironment(OuterEnv(inner, state_representation=srep, observation_representation=orep))
     wrap = GymStateWrapper(genv)
     ref_state, ref_obs = None, None
@@ -954,6 +957,21 @@ def _gym_history(ops, seed):
                     return f'{where}: wrapper step did not return the post-step state'
                 if op == 'S' and not same(out[3]['observation'], want_obs):
                     return f'{where}: wrapper step passed a wrong observation through info'
+            elif op in ('x', 'y'):
+                # switch the observation (x) / state (y) representation to the next name; the advertised space follows
+                from gym_gridverse.gym import outer_space_to_gym_space
+                if op == 'x':
+                    oi = (oi + 2) % 3
+                    genv.set_observation_representation(names[oi])
+                    orep = make_observation_representation(names[oi], inner.observation_space)
+                    if genv.observation_space != outer_space_to_gym_space(orep.space):
+                        return f'{where}: advertised observation space is not that of the requested representation'
+                else:
+                    si = (si + 2) % 3
+                    genv.set_state_representation(names[si])
+                    srep = make_state_representation(names[si], inner.state_space)
+                    if genv.state_space != outer_space_to_gym_space(srep.space):
+                        return f'{where}: advertised state space is not that of the requested representation'
             elif op == 'o':
                 if ref_state is None:
                     continue
@@ -981,7 +999,11 @@ def _hist_case(args):
 def env_histories(tier, seed):
     n_inner, n_gym = (5, 5) if tier == 'quick' else (6, 6)
     cases = [('inner', ops, seed + k) for k in range(4) for ops in itertools.product('RSITOZ', repeat=n_inner) if ops[0] in 'RSO']
+    # the small room (odd seeds): longer walks with turns, so that the exit is reached and left again
+    cases += [('inner', ('R',) + ops, seed + 2 * k + 1) for k in range(12) for ops in itertools.product('SL', repeat=n_inner + 2)]
     cases += [('gym', ops, seed + k) for k in range(2) for ops in itertools.product('rRsSot', repeat=n_gym) if ops[0] in 'rR']
+    cases += [('gym', ('r',) + ops, seed + k) for k in range(9) for ops in itertools.product('xysSot', repeat=n_gym - 1)
+              if 'x' in ops or 'y' in ops]
     with mp.Pool(16) as pool:
         res = pool.map(_hist_case, cases, chunksize=64)
     failures = []
